@@ -113,6 +113,9 @@ type world struct {
 	revC, xrC *simkube.Client
 	rec, xrec reconcile.Reconciler
 	inj       *prefixInjector
+	// liveInstance: keep one revision-controller instance for the whole
+	// execution (see realRevReconcile).
+	liveInstance bool
 
 	current  string // content id the Composition has now
 	stripped bool   // owner references were stripped at some point of this history
@@ -215,7 +218,11 @@ func seedXR(s *simkube.Store, name string, pol xpv1.UpdatePolicy, selector bool)
 }
 
 func newWorld(r *explore.Run, skip map[string]bool) *world {
-	w := &world{r: r, xrd: xrh.XRD(), skip: skip, current: "A"}
+	return newWorldLive(r, skip, false)
+}
+
+func newWorldLive(r *explore.Run, skip map[string]bool, live bool) *world {
+	w := &world{r: r, xrd: xrh.XRD(), skip: skip, current: "A", liveInstance: live}
 	w.revC = &simkube.Client{Name: revClient}
 	w.xrC = &simkube.Client{Name: xrClient}
 	w.inj = &prefixInjector{fi: &xrh.FaultInjector{Run: r, Reads: true, NotFoundReads: true,
@@ -324,7 +331,11 @@ func (w *world) doEvent(e event) {
 // call is a fault point (armed == false: preparation, fault free). pre holds fault
 // decisions already taken for this reconcile (see memo_test.go).
 func (w *world) realRevReconcile(armed bool, pre []int) (xrh.Outcome, []decision) {
-	if w.rec == nil {
+	// The memoised scenarios compute each transition once, as a function of
+	// the stored state: they use a new controller instance every time, so
+	// that what an instance may remember between calls cannot make a replay
+	// differ from the first computation. (live-instance-retry keeps one.)
+	if w.rec == nil || !w.liveInstance {
 		w.rec = composition.NewReconciler(&pkgh.Mgr{C: w.revC})
 	}
 	before := w.revisions()
@@ -382,7 +393,7 @@ func parseSkip() map[string]bool {
 func TestCheck(t *testing.T) {
 	rep := report.New("C12", "fault_enumeration")
 	rep.Meta(
-		"Executions are event sequences of bounded depth over the menu {revision-controller reconcile (real composition.Reconciler; every API call, reads included, is a fault point with outcomes error-before / conflict / error-after / crash-before / crash-after, <= F deviations per sequence, fresh reconciler after a crash), edit the Composition 'comp' to content A / B (other spec + label) / C (A + a label only) / D (A + an annotation only) / E (A with another pipeline step input), strip the owner references of all revisions (backup/restore), real fault-free XR reconcile (production option list, scripted function) of an XR with policy Manual / Automatic / Automatic + compositionRevisionSelector on a label only B and C carry, user deletes the lowest-numbered revision}. All sequences are enumerated by DFS; a state (store + oracle memory) reached again with no more steps and fault budget left is pruned; each distinct transition (state, event, fault decisions) is computed once by the real code and memoised. Scenario 'history' starts from prepared revisions A#1 B#2 C#3. Oracle R1-R5 on every effective write and after every reconcile. Non-trivial: >= 2 effective edits and >= 2 revision-controller reconciles (distinct by event trail + faults). Outcome = final revision table.",
+		"Executions are event sequences of bounded depth over the menu {revision-controller reconcile (real composition.Reconciler; every API call, reads included, is a fault point with outcomes error-before / conflict / error-after / crash-before / crash-after, <= F deviations per sequence, fresh reconciler after a crash), edit the Composition 'comp' to content A / B (other spec + label) / C (A + a label only) / D (A + an annotation only) / E (A with another pipeline step input), strip the owner references of all revisions (backup/restore), real fault-free XR reconcile (production option list, scripted function) of an XR with policy Manual / Automatic / Automatic + compositionRevisionSelector on a label only B and C carry, user deletes the lowest-numbered revision}. All sequences are enumerated by DFS; a state (store + oracle memory) reached again with no more steps and fault budget left is pruned; each distinct transition (state, event, fault decisions) is computed once by the real code and memoised. Scenario 'history' starts from prepared revisions A#1 B#2 C#3. Scenarios 'live-instance-retry' run two rounds of {edit or strip, a reconcile with <= 1 fault, two fault-free retries} on one live controller instance without the memo (state a controller keeps between calls must not make a retry skip its work). Oracle R1-R5 on every effective write and after every reconcile. Non-trivial: >= 2 effective edits and >= 2 revision-controller reconciles (distinct by event trail + faults). Outcome = final revision table.",
 		[]string{
 			"simkube models the API server",
 			"one reconcile at a time (controller-runtime never runs two reconciles of one object concurrently); edits happen between reconciles",
@@ -411,6 +422,9 @@ func TestCheck(t *testing.T) {
 	scs := []report.Scenario{
 		{Name: "fresh", Bound: bound, Prune: true, Wrap: report.Bubble(t), Body: func(r *explore.Run) { body(r, rep, "fresh", depth, false, skip) }},
 		{Name: "history", Bound: bound, Prune: true, Wrap: report.Bubble(t), Body: func(r *explore.Run) { body(r, rep, "history", depth-1, true, skip) }},
+		// One live controller instance, no memo: a faulted reconcile and its retries.
+		{Name: "live-instance-retry/fresh", Bound: 1, Wrap: report.Bubble(t), Body: func(r *explore.Run) { retryBody(r, rep, "live-instance-retry/fresh", false) }},
+		{Name: "live-instance-retry/history", Bound: 1, Wrap: report.Bubble(t), Body: func(r *explore.Run) { retryBody(r, rep, "live-instance-retry/history", true) }},
 	}
 	rep.SelfCheck(t, scs[0], func() { memo = newMemo() })
 	rep.RunScenarios(t, scs)
